@@ -5,13 +5,17 @@
 (* The harness runs the real jsonclient / LogClient under virtual time     *)
 (* over a scripted RoundTripper and records (in the order of the           *)
 (* recorder's mutex; t = virtual ms since the start of the run):           *)
-(*   Reset                       a new client (a new trace)                *)
+(*   Reset  {hc}                 a new client (a new trace) built on an    *)
+(*                               http.Client configured hc                 *)
 (*   Call   {c, t, ctxat}        caller c starts a submission; its context *)
 (*                               ends at ctxat (-1: never)                 *)
-(*   Post   {c, t, cls, rak, rav} the RoundTripper received a request and  *)
-(*                               answers with class cls; Retry-After form  *)
-(*                               rak: secs (rav seconds) | date (rav = the *)
-(*                               absolute instant in ms) | none            *)
+(*   Post   {c, t, w, sp, rak, rav} the RoundTripper received a request    *)
+(*                               and answers with wire kind w (a 200 body  *)
+(*                               spelled sp); Retry-After form rak: secs   *)
+(*                               (rav seconds) | date (rav = the absolute  *)
+(*                               instant in ms) | none.  What class the    *)
+(*                               submission sees of it is the spec's       *)
+(*                               Seen(hc, w, sp), not the harness' say     *)
 (*   State  {t, mult, nb}        back-off state read through the verif     *)
 (*                               hook when every goroutine was blocked     *)
 (*   Return {c, t, res}          the submission returned ok | status | ctx *)
@@ -31,10 +35,11 @@ Trace == ndJsonDeserialize(IOEnv.TRACE_FILE)
 
 VARIABLE l        \* next line of Trace to consume
 
-tvars == <<now, mult, notBefore, pc, ctxEnd, ctxDone, until, result, lastResp, n,
+tvars == <<hc, now, mult, notBefore, pc, ctxEnd, ctxDone, until, result, lastResp, n,
            lastPost, minNext, askUntil, hist, l>>
 
 Fresh ==
+  /\ hc = "plain"
   /\ now = 0 /\ mult = 0 /\ notBefore = 0 /\ askUntil = 0
   /\ pc = [c \in Callers |-> "idle"]
   /\ until = [c \in Callers |-> 0]
@@ -55,6 +60,7 @@ Consume == l' = l + 1
 TraceReset ==
   /\ Ev("Reset")
   /\ \A c \in Callers : pc[c] = "idle"
+  /\ Trace[l].hc \in HCKinds /\ hc' = Trace[l].hc
   /\ now' = 0 /\ mult' = 0 /\ notBefore' = 0 /\ askUntil' = 0
   /\ Consume
   /\ UNCHANGED <<pc, ctxEnd, ctxDone, until, result, lastResp, n, lastPost, minNext, hist>>
@@ -68,7 +74,7 @@ TraceCall ==
      /\ ctxEnd' = [ctxEnd EXCEPT ![e.c] = e.ctxat]
      /\ ctxDone' = [ctxDone EXCEPT ![e.c] = FALSE]
   /\ Consume
-  /\ UNCHANGED <<now, mult, notBefore, until, result, lastResp, n, lastPost, minNext, askUntil, hist>>
+  /\ UNCHANGED <<hc, now, mult, notBefore, until, result, lastResp, n, lastPost, minNext, askUntil, hist>>
 
 \* the delay a response asks for, measured at the instant of the response
 Ov(e) == IF e.rak = "secs" THEN e.rav * Base ELSE IF e.rak = "date" THEN e.rav - now ELSE 0
@@ -77,7 +83,7 @@ TracePost ==
   /\ Ev("Post")
   /\ LET e == Trace[l] IN
      /\ e.t = now
-     /\ Post(e.c, Resp(e.cls, e.rak, Ov(e)))
+     /\ \E k \in Seen(hc, e.w, e.sp) : Post(e.c, Wire(e.w, e.sp, e.rak, Ov(e)), k)
   /\ Consume
 
 \* silent: the timer of c's wait fires (at until + j for some jitter j, or at once when that is past)
@@ -106,7 +112,7 @@ TraceReturn ==
      /\ pc' = [pc EXCEPT ![e.c] = "idle"]
      /\ result' = [result EXCEPT ![e.c] = NoRes]
   /\ Consume
-  /\ UNCHANGED <<now, mult, notBefore, ctxEnd, ctxDone, until, lastResp, n, lastPost, minNext, askUntil, hist>>
+  /\ UNCHANGED <<hc, now, mult, notBefore, ctxEnd, ctxDone, until, lastResp, n, lastPost, minNext, askUntil, hist>>
 
 \* somebody has to move at this instant: time does not pass
 TUrgent == \E c \in Callers :
@@ -122,12 +128,12 @@ TraceAdvance ==
      /\ \A c \in Callers : pc[c] = "waiting" => t <= until[c] + (J - 1)
      /\ \A c \in Callers : CtxPending(c) => t <= ctxEnd[c]
      /\ now' = t
-  /\ UNCHANGED <<mult, notBefore, pc, ctxEnd, ctxDone, until, result, lastResp, n, lastPost, minNext, askUntil, hist, l>>
+  /\ UNCHANGED <<hc, mult, notBefore, pc, ctxEnd, ctxDone, until, result, lastResp, n, lastPost, minNext, askUntil, hist, l>>
 
 TraceNext == \/ TraceReset \/ TraceCall \/ TracePost \/ TraceState \/ TraceReturn \/ TraceAdvance
              \/ \E c \in Callers : TraceFire(c) \/ TraceSilent(c)
 
-TraceView == <<now, mult, notBefore, pc, ctxEnd, ctxDone, until, result, lastResp, lastPost, minNext, askUntil, l>>
+TraceView == <<hc, now, mult, notBefore, pc, ctxEnd, ctxDone, until, result, lastResp, lastPost, minNext, askUntil, l>>
 
 \* high-water mark of consumed lines
 HighWater == TLCSet(1, IF TLCGet(1) < l THEN l ELSE TLCGet(1))
@@ -144,5 +150,6 @@ TraceClauses ==
   [][(Ev("Reset") /\ l' = l + 1) \/
      ( /\ FirstGood200Step /\ RetryOnlyOnStep /\ OthersImmediateStep /\ HonoursRetryAfterStep
        /\ CapPlusJitterStep /\ NoDelayOn408Step /\ UntilInWindowStep /\ PendingOnlyExtendedStep
-       /\ MultMonotoneStep /\ NoPostAfterCtxStep /\ PromptCtxSafeStep /\ RedirectNotOKStep )]_tvars
+       /\ MultMonotoneStep /\ NoPostAfterCtxStep /\ PromptCtxSafeStep /\ RedirectNotOKStep
+       /\ SpellingStep /\ HandedBackStep )]_tvars
 =============================================================================
